@@ -349,9 +349,14 @@ pub fn bulk_strategy(max_n: u16) -> impl Strategy<Value = Bulk> {
         1 => Just((0u32, 5000u32)),
         1 => Just((300u32, 700u32)),
     ];
+    let huge = if max_n >= 4000 { 1 } else { 0 };
     prop_oneof![
-        5 => (any::<u64>(), 1u16..=max_n, 0u8..4, plen_strategy(), vrange.clone()).prop_map(
+        5 => (any::<u64>(), 1u16..=max_n.min(3999), 0u8..4, plen_strategy(), vrange.clone()).prop_map(
             |(seed, n, cluster, plen, (vlo, vhi))| Bulk::Insert { seed, n, cluster, plen, vlo, vhi }
+        ),
+        // many leaves: thousands of ~1.3 KiB values (free lists spanning several pages after deletion)
+        huge => (any::<u64>(), 4000u16..=max_n.max(4000), 0u8..4, prop::sample::select(vec![0u8, 0, 3, 9])).prop_map(
+            |(seed, n, cluster, plen)| Bulk::Insert { seed, n, cluster, plen, vlo: 1200, vhi: 1332 }
         ),
         3 => (any::<u64>(), prop_oneof![1u16..=1000, Just(1000u16), Just(900u16)])
             .prop_map(|(seed, permille)| Bulk::Delete { seed, permille }),
